@@ -444,9 +444,10 @@ class ResourcePeriodicallyInterrupted(ResourceConstraint):
         resource_assigned = False
 
         for worker in workers:
-            conds = []
             for task, (start_task_i, end_task_i) in worker._busy_intervals.items():
                 resource_assigned = True
+                # the conditions and the activity range below are those of this task
+                conds = []
                 overlaps = []
 
                 # check if the task allows variable duration
@@ -543,19 +544,16 @@ class ResourcePeriodicallyInterrupted(ResourceConstraint):
                             task._duration <= task.max_duration + total_overlap
                         )
 
-            # TODO: add AND only of mask is set?
-            core = z3.And(*conds)
+                core = z3.And(*conds)
 
-            mask = [core]
-            if self.start > 0:
-                mask.append(end_task_i <= self.start)
-            if self.end is not None:
-                mask.append(start_task_i >= self.end)
+                # the pattern is not active before its start (0 by default) nor after its
+                # end: a task that lies entirely there -- in particular the busy interval of
+                # a task that is not scheduled, which lies in the past -- is not concerned
+                mask = [core, end_task_i <= self.start]
+                if self.end is not None:
+                    mask.append(start_task_i >= self.end)
 
-            if len(mask) > 1:
                 self.set_z3_assertions(z3.Or(*mask))
-            else:
-                self.set_z3_assertions(*mask)
 
         if not resource_assigned:
             raise AssertionError(
